@@ -3,6 +3,7 @@ package main
 import (
 	"context"
 	"net/http"
+	"sync/atomic"
 
 	"github.com/gorilla/websocket"
 	log "github.com/sirupsen/logrus"
@@ -39,8 +40,13 @@ func (wsfe *websocketFrontend) ServeHTTP(w http.ResponseWriter, r *http.Request)
 	log.Info("Websocket connected")
 
 	cancelObservation := func() {}
-	alive := true
-	for alive {
+	// alive is cleared by the engine goroutine (onclose) and read here. Only the
+	// close of the current observation ends the connection: replacing an
+	// observation cancels the previous one, whose close must not.
+	var alive atomic.Bool
+	alive.Store(true)
+	var generation atomic.Int64
+	for alive.Load() {
 		msgtype, p, err := conn.ReadMessage()
 		if err != nil {
 			log.Errorf("Error reading websocket: %s", err)
@@ -57,6 +63,7 @@ func (wsfe *websocketFrontend) ServeHTTP(w http.ResponseWriter, r *http.Request)
 				continue
 			}
 
+			gen := generation.Add(1)
 			cancelObservation()
 			cancelObservation = wsfe.engine.Observe(
 				expr,
@@ -67,7 +74,9 @@ func (wsfe *websocketFrontend) ServeHTTP(w http.ResponseWriter, r *http.Request)
 					)
 				},
 				func(err error) {
-					alive = false
+					if generation.Load() == gen {
+						alive.Store(false)
+					}
 				},
 			)
 		}
